@@ -359,6 +359,26 @@ theorem src_divsteps_exact (Bd : Int) (gs : Nat) (x adj : Int) (e f0 g : List (B
   · rw [e2]; exact i1.odd
   · rw [e1, e2]; exact i2.cd
 
+open CB.GenChains (nats) in
+open CB.GenSafeGcdLimbs (WFw) in
+/-- `SafeGcdInverter::norm` of the source (`&self` = the tuple of the fields `(modulus, adjuster, inverse)`) is the model's
+    `norm` for every limb count; hence (`inverter_norm_exact` restated) for `value ∈ (−2M, M)` and both values of `negate` the
+    words the SOURCE returns are well formed and represent `±value mod M` in `[0, M)` -/
+theorem src_inverter_norm_exact (m adj v : List (BitVec 64)) (inv : BitVec 64) (negate : Bool) (hl : m.length = v.length)
+    (wv : WFw v) (wm : WFw m) (hne : v ≠ []) (hM : 0 < uval (nats m))
+    (h1 : -(2 * uval (nats m)) < uval (nats v)) (h2 : uval (nats v) < uval (nats m))
+    (hcap : 4 * uval (nats m) ≤ ((Q ^ v.length : Nat) : Int)) :
+    nats (Gen.SafeGcdLimbs.Inverter.norm v.length (m, adj, inv) v (GenBits.ofBool negate)) = norm (nats m) (nats v) negate ∧
+    (Gen.SafeGcdLimbs.Inverter.norm v.length (m, adj, inv) v (GenBits.ofBool negate)).length = v.length ∧
+    WFw (Gen.SafeGcdLimbs.Inverter.norm v.length (m, adj, inv) v (GenBits.ofBool negate)) ∧
+    uval (nats (Gen.SafeGcdLimbs.Inverter.norm v.length (m, adj, inv) v (GenBits.ofBool negate))) =
+      (if negate then -uval (nats v) else uval (nats v)) % uval (nats m) := by
+  obtain ⟨e, w, l⟩ := GenSafeGcdLimbs.norm_bridge m adj v inv negate hl wv wm
+  have hnl : (nats v).length = v.length := by simp [nats]
+  obtain ⟨_, _, p3⟩ := P10.inverter_norm_exact (nats m) (nats v) negate ((GenSafeGcdLimbs.WFw_iff m).mp wm)
+    ((GenSafeGcdLimbs.WFw_iff v).mp wv) (by simp [nats, hl]) (by simpa [nats] using hne) hM h1 h2 (by rw [hnl]; exact hcap)
+  exact ⟨e.symm, l, w, by rw [← e]; exact p3⟩
+
 /-- non-vacuity: the translated source on three 62-bit limbs — `7 + (−9) = −2`, `(−9)·(−3) = 27`, `−(−9) = 9`,
     `(−9·2^62) >> 62 = −9`, and one `fg` step with the matrix `[[1, 0], [−1, 1]]` on `f = 7·2^62`, `g = 12·2^62`: `(7, 5)` -/
 example :
